@@ -168,10 +168,36 @@ def run(chk):
                 elif last > j + 1:
                     ofail.append((r, "recover: disturbing packet %d (kind %s, %s) still changes the output of packet %d (more than one packet later)" % (j, f["kind"], variant, last)))
             chk.note_case(r["ops"][1] + variant, True, {"ops": r["ops"][1:4], "answers": r["c"][1:4]})
+    # ---- part 3: restart through vorbisfile: decode on, then seek back (also into the first data page of the same link, where the seek
+    # takes its start-of-link path) and read: bit-identical to the uninterrupted decode at the position told
+    from . import c07 as C7, vfcommon as V
+    vcases = []
+    for i in range(10 if chk.tier == "quick" else 120):
+        rng = chk.rng
+        links = V.gen_links(rng, rng.choice([1, 1, 2]))
+        lens = [int(l.split(" ")[4]) for l in links]
+        total = sum(lens)
+        ops = ["case %d" % (7000 + i)] + links + ["table", "ref 0", "open 0 1 4096"]
+        for _ in range(rng.randint(2, 5)):
+            ops += ["read 0 4096"] * rng.choice([1, 3, 12])
+            base = rng.choice([0] + [sum(lens[:k]) for k in range(len(lens))])
+            tgt = max(0, min(total, base + rng.choice([0, 0, 1, 100, 777, 3000])))
+            ops.append("%s 0 %d" % (rng.choice(["pcmseek", "pcmseek", "pcmseekpage"]), tgt))
+            ops += ["read 0 %d" % rng.choice([64, 4096]) for _ in range(3)]
+        ops.append("clear 0")
+        vcases.append(ops)
+    for d in V.run_vf(vcases):
+        if d["crash"]:
+            chk.violation("crash:c07", "implementation aborted (vorbisfile restart scenario)", {"stream": "c07", "ops": d["ops"]}, True)
+            continue
+        o = C7.oracle(d)
+        if o:
+            chk.violation("oracle:c07:restart", "decoding restarted by a vorbisfile seek differs from the uninterrupted decode: " + o, {"stream": "c07", "ops": d["ops"]}, True)
+    chk.coverage["vorbisfile_restart_cases"] = len(vcases)
     chk.coverage["rule"] = ("(1) direct mode: vorbis_synthesis_blockin on marker blocks (every sample encodes its packet and index) over 14 configurations, half-rate on/off, random window "
                             "flags and restarts; every returned sample is recomputed from the Lean model's provenance cell and the library's own window table with exact single-precision "
                             "arithmetic and compared bit for bit. (2) real streams decoded with one packet dropped / duplicated / truncated / bit-flipped / decoding restarted (with and "
-                            "without a fresh vorbis_block), granule positions on every packet or only on every 3rd/7th/20th/50th as after Ogg paging, ASan build and plain build under heap perturbation: outputs of packets before j and from j+2 on must be bit-identical. "
+                            "without a fresh vorbis_block), granule positions on every packet or only on every 3rd/7th/20th/50th as after Ogg paging, ASan build and plain build under heap perturbation: outputs of packets before j and from j+2 on must be bit-identical. (3) decoding restarted through vorbisfile: read on, seek back (also into the first data page of the same link), read: bit-identical to the uninterrupted decode. "
                             "distinct = distinct configurations x flag sequences / fault lists")
     chk.coverage["cells_compared_bit_exact"] = cells_checked
     chk.coverage["faults_injected"] = nfaults
@@ -182,6 +208,8 @@ def run(chk):
 
 
 def replay(chk, obj):
+    if obj["replay"].get("stream") == "c07":
+        return __import__("checks.c07", fromlist=["replay"]).replay(chk, obj)
     res = vlib.run_harness_only("c11", [obj["replay"]["ops"]])
     for r in res:
         print("\n".join(l[:200] for l in (r["c"] or [])))
